@@ -705,10 +705,16 @@ package hotline
 // Decoding the client's resume data touches the decoded value only.
 
 //@ func (frd *FileResumeData) UnmarshalBinary(b []byte) (err error)
-//@   property C10
-//@   requires frd != nil
+//@   requires frd != nil && isnil(frd.ForkInfoList)
+//@   requires len(b) >= 42 && len(b) >= 42 + 16*b[41]
+//@   ensures err == nil ==> len(frd.ForkInfoList) == old(b[41])
+//@   ensures err == nil && old(b[41]) >= 1 ==> bytes(frd.ForkInfoList[0].Fork) == old(bytes(b)[42:46]) && bytes(frd.ForkInfoList[0].DataSize) == old(bytes(b)[46:50])
 //@   modifies frd.Format, frd.Version, frd.ForkCount, frd.ForkInfoList
+//@   loop 1 invariant 0 <= i && i <= frd.ForkCount[1] && frd.ForkCount[1] == old(b[41]) && len(frd.ForkInfoList) == i
+//@   loop 1 invariant i >= 1 ==> bytes(frd.ForkInfoList[0].Fork) == old(bytes(b)[42:46]) && bytes(frd.ForkInfoList[0].DataSize) == old(bytes(b)[46:50])
+//@   loop 1 invariant isnil(frd.ForkInfoList) || fresh(frd.ForkInfoList)
 //@   loop 1 modifies frd.ForkInfoList
+//@   nopanic
 
 // One visited entry of a folder download: header only for a visible entry that is not the root;
 // then the client's choice: next file sends nothing more; otherwise the size prefix
@@ -728,6 +734,8 @@ package hotline
 //@   before call (io.ReadWriter).Write assert wcalls(conn) == 1
 //@   before call (io.ReadWriter).Write assert same(arg1, callres("(*hotline.flattenedFileObject).TransferSize#2"))
 //@   before call (io.ReadWriter).Write assert callarg("(*hotline.flattenedFileObject).TransferSize#2", 1) == dataOffset
+//@   before call (io.ReadWriter).Write assert (*nextAction)[1] == 2 && callarg("(*hotline.FileResumeData).UnmarshalBinary", 1)[41] >= 1 ==> dataOffset == u32(bytes(callarg("(*hotline.FileResumeData).UnmarshalBinary", 1)), 46)
+//@   before call (io.ReadWriter).Write assert (*nextAction)[1] != 2 ==> dataOffset == 0
 //@   before call (io.ReadWriter).Write assert same(arg0, conn)
 //@   before call io.Copy#2 assert same(arg0, conn) && wcalls(conn) == 2
 //@   before call io.Copy#3 assert same(arg0, conn) && wcalls(conn) == 3 && spos(arg1) == dataOffset
